@@ -1,6 +1,7 @@
 import OapiVerif.Model.Filter
 import OapiVerif.Props.C15
 import OapiVerif.Gen.Pipeline
+import OapiVerif.Gen.FilterRules
 /-!
 C16 — Tag and operation-id filtering is exact.
 Tie: CORR through `VerifFilterByTag` / `VerifFilterByOperationID` and through `Generate`
@@ -114,6 +115,17 @@ theorem C16_pipeline_translated (cfg : Cfg) (skipPrune : Bool) (ops : List Op) (
   unfold Gen.Pipeline.stages
   simp only [Pipeline.seenByConsumers, Pipeline.isConsumer, Pipeline.step, Pipeline.pruned]
   cases skipPrune <;> simp [filterDoc, docOf]
+
+/-- **The model's two filters are filter.go as it stands**: the translator (harness/filterrules.go) reads from the source which
+configured list guards and feeds each pass, its exclude flag, the order of the passes and the comparison by which the two
+workers remove an operation; running that description is `filterByTag` / `filterById`. An inclusion pass moved before the
+exclusion pass, a guard on the wrong list, a flipped flag or a flipped comparison breaks this proof. -/
+theorem C16_filter_translated (cfg : Cfg) (ops : List Op) :
+    runPasses cfg (workerOf hasTag Gen.FilterRules.tagRemovesWhenEqual) Gen.FilterRules.tagPasses ops = filterByTag cfg ops ∧
+    runPasses cfg (workerOf hasId Gen.FilterRules.idRemovesWhenEqual) Gen.FilterRules.idPasses ops = filterById cfg ops := by
+  unfold Gen.FilterRules.tagPasses Gen.FilterRules.idPasses Gen.FilterRules.tagRemovesWhenEqual Gen.FilterRules.idRemovesWhenEqual
+  constructor <;>
+    simp only [runPasses, List.foldl_cons, List.foldl_nil, Cfg.list, workerOf, if_true, filterByTag, filterById, withTags, withIds]
 
 /-! Non-vacuity. -/
 def exOps : List Op :=
